@@ -64,8 +64,11 @@ def _conds(tier):
         for k in range(4):
             for s in ("RA", "RP", "RAP", "RPA", "RR", "RC"):
                 script(s, 4, fixk=k, timeout=1500)
-        for s in ("A", "P", "X", "C", "PRA", "ARP", "XAR", "PP", "AA", "KRK"):
+        for s in ("A", "P", "X", "C", "XAR", "PP", "KRK"):
             script(s, 4, timeout=1500)
+        # (PRA, ARP and AA on 4 initial events did not finish inside 1500 s under load: they stay at N = 3, split by the first index)
+        for s in ("PRA", "ARP"):                                  # (AA at N = 3 is part of the skeleton sweep below)
+            script(s, 3, timeout=1500)
         # all skeletons of length <= 3 over the six operations on 3 initial events
         ops = "ARPKCX"
         seen = {c.env["VF_SCRIPT"] for c in conds if c.env.get("VF_N") == 3}
@@ -78,7 +81,11 @@ def _conds(tier):
         for t in ("float", "duration"):
             for k in range(4):
                 script("R", 4, time=t, fixk=k, timeout=1500)
-            script("RAP", 3, time=t, timeout=900)
+            if t == "float":
+                script("RAP", 3, time=t, timeout=900)
+            else:
+                for k in range(3):                                # (unsplit it did not finish inside 900 s)
+                    script("RAP", 3, time=t, fixk=k, timeout=1500)
         for t in ("int", "float", "duration"):
             conds.append(Cond(f"cmp/{t}", "c01", "h_cmp", {"VF_TIME": t, "VF_TMAX": 3 if t == "duration" else 8}, 900))
     return conds
